@@ -909,7 +909,8 @@ http_query_val_get_ex(const uint8_t *query, size_t query_size,
 			}
 			return (0);
 		}
-		val = mem_chr_ptr(val_end, query, query_size, '&');
+		/* Next pair: pair without '=' must not hide next name. */
+		val = mem_chr_ptr(val, query, query_size, '&');
 		if (NULL == val)
 			return (ESPIPE);
 		while (query_max > val && '&' == (*val)) {
